@@ -4,13 +4,17 @@ Proof: lean/XvcRepo/XvcRepo/Props/C07.lean (micro-step decomposition of the per-
 Search/tie on the implementation: every state-changing command is killed (strace -e inject=...:signal=KILL:when=k) just
 before each of its file-system mutating system calls; after every kill the oracles check: later commands load the
 repository, objects of earlier versions are intact, every byte string that was in the workspace is still in the workspace
-or in the cache, every cache object hashes to its address, re-running the command followed by `xvc file recheck`
+or in the cache, every cache object hashes to its address (after the kill and again after the re-run), re-running the command followed by `xvc file recheck`
 reaches the state of an uninterrupted twin, and neither the re-run nor what a user does next with the targets of the killed
 command (`recheck` with another method, `recheck --force`) destroys bytes that exist nowhere else.
+Sources of `move_to_cache`: regular files (rename) AND symbolic links / files on another file system (data copy to a hidden
+temporary name, then rename), the copy with and without the kernel's copy offload (kill points inside the copy).
+Translator: lib/c07_extract.py (destinations of the writing calls of `move_to_cache` -> Gen/MoveToCache.lean).
 """
 import os, re, shutil, subprocess, json, hashlib
 from concurrent.futures import ThreadPoolExecutor
 import hashref
+import c07_extract
 import repo_harness as rh
 import repo_check as rc
 from repo_harness import Obs, Table, abstraction, fp
@@ -22,6 +26,16 @@ SYSCALLS = 'openat,creat,write,pwrite64,rename,renameat,renameat2,unlink,unlinka
 # otherwise dominate the per-thread counters of strace's `when=` and the store-save phase of the worker would rarely be hit.
 INJECT = ','.join(x for x in SYSCALLS.split(',') if x not in ('openat', 'creat'))
 MUT_OPEN = re.compile(r'O_WRONLY|O_RDWR|O_CREAT|O_TRUNC|O_APPEND')
+
+
+# `std::fs::copy` hands the data copy to the kernel (copy_file_range, else sendfile): a file below 1 GiB is one call, so
+# a kill "during the copy" can only fall before or after it.  Where the kernel offers neither call (ENOSYS: old kernels,
+# seccomp sandboxes, some network / FUSE file systems) std falls back to read + write with an 8 KiB buffer: a file of n
+# bytes is ceil(n / 8192) write calls and a kill between two of them leaves a truly partial copy.  Commands marked
+# `no_offload` run (reference and killed runs alike) with both calls failing with ENOSYS.
+COPY_BUF = 8192
+NO_OFFLOAD = ['-e', 'inject=copy_file_range:error=ENOSYS', '-e', 'inject=sendfile:error=ENOSYS']
+DATA_CALLS = ('copy_file_range', 'sendfile', 'write', 'pwrite64')
 
 
 def classify(line, root):
@@ -40,7 +54,7 @@ def classify(line, root):
         if p.startswith('/') and not p.startswith(root): return None             # /dev/null, /proc, /tmp ...
         if '.xvc/store/' in p: cls = 'store-file' if p.endswith(('.json', '.tmp')) else 'store-dir'
         elif '.xvc/ec' in p: cls = 'entity-counter'
-        elif re.search(r'\.xvc/(b3|b2|s2|s3)(/|$)', p): cls = 'cache-object' if re.search(r'/0\.[^/]*$', p) else 'cache-dir'
+        elif re.search(r'\.xvc/(b3|b2|s2|s3)(/|$)', p): cls = 'cache-object' if re.search(r'/0\.[^/]*$', p) else ('cache-tmp' if p.endswith('.xvc-tmp') else 'cache-dir')
         elif p.endswith('.gitignore') or p.endswith('.xvcignore'): cls = 'ignore-file'
         elif '.git/' in p: return None
         else: cls = 'workspace'
@@ -49,23 +63,43 @@ def classify(line, root):
 
 
 def parse_trace(path, root):
+    return parse_trace_ex(path, root)[0]
+
+
+def parse_trace_ex(path, root):
     """per-thread list of (syscall, path class) for the mutating calls; fd-based calls inherit the class of the last
-    file the thread opened for writing"""
+    file the thread opened for writing.  Second result: (syscall, class) of the last traced call of the file (where an
+    injected kill fell), None when that call does not touch the repository"""
     per, last = {}, {}
+    last_call = None
     for line in open(path, errors='replace'):
         m = re.match(r'(\d+)\s+(\w+)\((.*)', line)
         if not m or m.group(2) not in SYSCALLS.split(','): continue
         pid, sc, rest = m.groups()
+        last_call = None
         if sc in ('write', 'pwrite64', 'fchmod', 'copy_file_range', 'ftruncate', 'sendfile'):
             if sc in ('write', 'pwrite64') and re.match(r'[12],', rest): continue
+            if 'ENOSYS' in rest and 'INJECTED' in rest: continue                    # the kernel "does not have" the call
             per.setdefault(pid, []).append((sc, last.get(pid, 'fd')))
+            last_call = per[pid][-1]
             continue
         c = classify(line, root)
         if c is None:
             continue
         if sc in ('openat', 'creat'): last[pid] = c[1]
         per.setdefault(pid, []).append(c)
-    return per
+        last_call = c
+    return per, last_call
+
+
+def rt(o, p):
+    """bytes read THROUGH the workspace entry: a regular file's own, a link's target's - an object of the cache or a data
+    file kept outside of the repository (the kernel follows both alike)"""
+    b = rc.read_through(o, p)
+    k = o.ws.get(p)
+    if b is None and k and k['kind'] == 'symlink' and not k.get('addr'):
+        b = k.get('bytes')
+    return b
 
 
 def inventory(sb):
@@ -73,7 +107,7 @@ def inventory(sb):
     inv = set()
     o = Obs(sb)
     for p, k in o.ws.items():
-        b = rc.read_through(o, p)
+        b = rt(o, p)
         if b is not None: inv.add(b)
     for rel, ob in o.cache.items():
         if ob['bytes'] is not None: inv.add(ob['bytes'])
@@ -82,7 +116,7 @@ def inventory(sb):
 
 def canon(o, table):
     """observable state for the convergence comparison: per path kind+bytes, records (current digest, method), object set"""
-    ws = {p: (rc.entry_kind(o, p)[0], rc.read_through(o, p)) for p in o.ws}
+    ws = {p: (rc.entry_kind(o, p)[0], rt(o, p)) for p in o.ws}
     recs = {p: (r['cur'] and ''.join(f'{b:02x}' for b in r['cur']['digest']), r['method']) for p, r in o.recs.items()}
     return {'ws': ws, 'recs': recs, 'cache': sorted(o.cache)}
 
@@ -95,6 +129,23 @@ def setup_repo(chk, xvc, name):
     sb.x('file', 'track', '--no-parallel', '--recheck-method', 'symlink', 'c.txt', 'dup.txt')
     sb.write('u.txt', b'u unique, only in the cache\n')       # a link whose object nothing else refers to
     sb.x('file', 'track', '--no-parallel', '--recheck-method', 'symlink', 'u.txt')
+    # sources of `move_to_cache` that are SYMBOLIC LINKS (their bytes are copied, not renamed, into the cache):
+    # (1) a text file of several copy buffers materialised with the symlink method; committing it under another
+    #     --text-or-binary mode carries the link to a NEW address;
+    # (2) a link to a data file that is kept outside of the repository (untracked so far).
+    # Sizes: some full 8 KiB buffers and a tail, drawn per run.
+    n_txt = chk.rng.randint(2, 3) * COPY_BUF + chk.rng.randint(1, COPY_BUF - 1)
+    lines, i = [], 0
+    while sum(map(len, lines)) < n_txt:
+        lines.append(b'line %d %s\r\n' % (i, bytes(chk.rng.choice(b'abcdefghij ') for _ in range(chk.rng.randint(0, 60))))); i += 1
+    sb.write('big.txt', b''.join(lines))
+    sb.x('file', 'track', '--no-parallel', '--recheck-method', 'symlink', 'big.txt')
+    n_ext = chk.rng.randint(2, 4) * COPY_BUF + chk.rng.randint(1, COPY_BUF - 1)
+    os.makedirs(os.path.join(sb.base, 'ext'))
+    with open(os.path.join(sb.base, 'ext', 'data.bin'), 'wb') as f:
+        f.write(b'\x00' + chk.rng.randbytes(n_ext - 1))
+    os.symlink(os.path.join(sb.base, 'ext', 'data.bin'), sb.path('ext.bin'))
+    chk.extra['link_source_sizes'] = {'big.txt (symlink method)': sum(map(len, lines)), 'ext.bin -> ../ext/data.bin': n_ext, 'copy_buffer': COPY_BUF}
     sb.write('a.txt', b'a v2 edited\n')
     sb.x('file', 'carry-in', '--no-parallel', 'a.txt')
     sb.write('new.txt', b'brand new\n'); sb.write('a.txt', b'a v3 uncommitted\n')
@@ -118,11 +169,33 @@ COMMANDS = [
     ('recheck-force', ['file', 'recheck', '--no-parallel', '--force', 'a.txt'], ['a.txt']),
     ('bring', None, ['d/b.bin']),      # prepared below: cache object removed first
     ('bring-xdev', None, ['d/b.bin']),  # the same with TMPDIR on another file system
+    # the carried-in path is a symbolic link: its bytes are COPIED into the cache (hidden temporary name, then rename)
+    ('track-extlink', ['file', 'track', '--no-parallel', 'ext.bin'], ['ext.bin']),
+    ('carry-in-symlink-tob', ['file', 'carry-in', '--no-parallel', '--text-or-binary', 'binary', 'big.txt'], ['big.txt']),
+    # the same where the kernel has no copy offload: the copy is a sequence of 8 KiB writes, kills fall inside it
+    ('track-extlink-rw', ['file', 'track', '--no-parallel', 'ext.bin'], ['ext.bin']),
+    ('carry-in-symlink-tob-rw', ['file', 'carry-in', '--no-parallel', '--text-or-binary', 'binary', 'big.txt'], ['big.txt']),
+    ('bring-xdev-rw', None, ['d/b.bin']),
     ('pipeline-step-new', ['pipeline', 'step', 'new', '--step-name', 's1', '--command', 'echo hi'], []),
 ]
 
 
-QUICK = ('track-new', 'carry-in', 'recheck-method', 'track-hardlink', 'untrack-unshared', 'recheck-copy', 'bring-xdev')
+QUICK = ('track-new', 'carry-in', 'recheck-method', 'track-hardlink', 'untrack-unshared', 'recheck-copy', 'bring-xdev',
+         'track-extlink', 'carry-in-symlink-tob', 'track-extlink-rw', 'carry-in-symlink-tob-rw')
+# commands whose source is a symbolic link / a file on another file system: the reference run MUST contain a data-copy
+# call whose destination is below the cache (otherwise the kill-point search does not reach the region it is there for)
+COPIES_INTO_CACHE = ('track-extlink', 'carry-in-symlink-tob', 'track-extlink-rw', 'carry-in-symlink-tob-rw', 'bring-xdev', 'bring-xdev-rw')
+
+
+def no_offload(cname):
+    return cname.endswith('-rw')
+
+
+def sig_cmd(cname):
+    """command family for the signatures of known findings"""
+    for fam in ('carry-in', 'track', 'recheck', 'move', 'untrack'):
+        if cname.startswith(fam): return fam
+    return cname
 
 
 def other_fs_tmp():
@@ -138,7 +211,7 @@ def other_fs_tmp():
 
 
 def prepare(sb, name):
-    if name == 'bring-xdev':
+    if name in ('bring-xdev', 'bring-xdev-rw'):
         # the storage's temporary directory on ANOTHER file system: fs::rename into the cache fails with EXDEV and
         # move_to_cache takes its copy path (hidden temporary name next to the cache path, then rename)
         d = other_fs_tmp()
@@ -173,8 +246,8 @@ def clone(sb, name):
             p = os.path.join(dp, f)
             if os.path.islink(p):
                 t = os.readlink(p)
-                if t.startswith(sb.root + '/'):
-                    os.unlink(p); os.symlink(c.root + t[len(sb.root):], p)
+                if t.startswith(sb.base + '/'):
+                    os.unlink(p); os.symlink(c.base + t[len(sb.base):], p)
     # the local storage path is recorded absolutely: keep using the original's (read-only use)
     return c
 
@@ -191,7 +264,7 @@ def follow_ups(chk, sb, targets, where, cname):
     fails = []
     for extra in FOLLOW_UPS:
         before = Obs(sb)
-        had = {t: rc.read_through(before, t) for t in targets}
+        had = {t: rt(before, t) for t in targets}
         r, _, e = sb.x('--skip-git', 'file', 'recheck', '--no-parallel', *extra, *targets)
         inv, after = inventory(sb)
         chk.count(f"follow-up:recheck {' '.join(extra)}:rc={r}")
@@ -200,7 +273,7 @@ def follow_ups(chk, sb, targets, where, cname):
                 continue
             rec = after.recs.get(t)
             obj = after.cache.get(rc.rec_addr(rec, t)) if rec and rec['cur'] else None
-            if extra == ['--force'] and obj is not None and rc.read_through(after, t) == obj['bytes']:
+            if extra == ['--force'] and obj is not None and rt(after, t) == obj['bytes']:
                 continue                      # --force replaced an edited file by the committed version: what it is for
             fails.append((f"{where}, then `xvc file recheck {' '.join(extra)} {t}` (rc={r} {e[-160:].strip()}): the {len(b)} bytes {b[:20]!r} that were at {t} "
                           f"are neither in the workspace nor in the cache" + ('' if obj is not None else '; the recorded version of the path is not in the cache either'),
@@ -220,10 +293,11 @@ def run_one(chk, xvc, base, cname, argv, targets, k, trace_ref, table):
     inv0, o0 = inventory(sb)
     objs0 = {rel: ob['bytes'] for rel, ob in o0.cache.items()}
     tf = os.path.join(sb.base, 'killed.trace')
-    cmd = ['strace', '-f', '-qq', '-o', tf, '-e', f'trace={SYSCALLS}', '-e', f'inject={sc_name}:signal=KILL:when={sc_j}',
-           xvc, '--skip-git'] + arg2
+    cmd = ['strace', '-f', '-qq', '-o', tf, '-e', f'trace={SYSCALLS}'] + (NO_OFFLOAD if no_offload(cname) else []) + \
+          ['-e', f'inject={sc_name}:signal=KILL:when={sc_j}', xvc, '--skip-git'] + arg2
     rc_, out, err = sb.run(cmd, timeout=120)
-    done = [x for l in parse_trace(tf, sb.root).values() for x in l] if os.path.exists(tf) else []
+    per_k, last_call = parse_trace_ex(tf, sb.root) if os.path.exists(tf) else ({}, None)
+    done = [x for l in per_k.values() for x in l]
     # strace logs the call on which the signal was injected as its last line of that thread: it did not execute
     killed_line = None
     try:
@@ -231,8 +305,11 @@ def run_one(chk, xvc, base, cname, argv, targets, k, trace_ref, table):
         killed_line = lines[-1] if lines else None
     except OSError:
         pass
-    at = (classify(killed_line, sb.root) or ('?', 'other')) if killed_line else ('end', 'end')
+    # fd-based calls (write, copy_file_range ...) carry the class of the file the thread opened for writing last
+    at = (last_call or classify(killed_line, sb.root) or ('?', 'other')) if killed_line else ('end', 'end')
     if done and killed_line: done = done[:-1] if done[-1] == at else done
+    if at[0] in DATA_CALLS and at[1] in ('cache-object', 'cache-tmp'):
+        chk.count(f'kill-inside-data-copy-into-cache:{cname}')
 
     def frac(pred):
         tot = sum(1 for x in trace_ref if pred(x)); d = sum(1 for x in done if pred(x))
@@ -255,7 +332,7 @@ def run_one(chk, xvc, base, cname, argv, targets, k, trace_ref, table):
             if n is None or n['bytes'] != b:
                 fails.append((f'{where}: object {rel} of an earlier version is {"gone" if n is None else "changed"}', {'kind': 'old-version-lost', 'at': f'{at[0]}:{at[1]}'}))
     # (c) every byte string of the workspace survives
-    o0ws = {rc.read_through(o0, p) for p in o0.ws} - {None}
+    o0ws = {rt(o0, p) for p in o0.ws} - {None}
     lost = [b for b in o0ws if b not in inv1]
     if cname in ('remove',): lost = []
     if cname == 'recheck-force':
@@ -271,8 +348,14 @@ def run_one(chk, xvc, base, cname, argv, targets, k, trace_ref, table):
         fu = clone(sb, f'{cname}-{sc_name}{sc_j}-fu') if targets else None          # the killed state itself, for (g)
         r2, _, e2 = sb.x(*(['--skip-git'] + arg2))
         r3, _, e3 = sb.x('--skip-git', 'file', 'recheck')
-        got = canon(Obs(sb), table)
+        ob2 = Obs(sb)
+        got = canon(ob2, table)
         fails.append(('__state__', got, where, at, (r2, e2[-200:]), phase))
+        # (d) again on the state the re-run reached: a partial object that the killed run left at an address is not
+        # repaired by anything (the address "exists"), and no later command may put one there
+        for msg, sig in rc.o1_content_addressed([{'i': sc_j, 'cmd': {'op': cname, 'targets': targets}, 'rc': r2, 'pre': None, 'post': ob2}], {}, []):
+            if sig['kind'] in ('address-mismatch', 'object-is-symlink'):
+                fails.append((f'{where}, then re-run (rc={r2}) and `xvc file recheck`: ' + msg, dict(sig, kind=sig['kind'] + '-after-rerun', at=f'{at[0]}:{at[1]}')))
         # (f) the re-run and the recheck destroy nothing either: a partial file left by the killed run must not be
         # taken for the user's file while the only complete copy is deleted
         inv2, _ = inventory(sb)
@@ -297,9 +380,15 @@ def run_one(chk, xvc, base, cname, argv, targets, k, trace_ref, table):
 
 def run(chk):
     quick = chk.tier == 'quick'
-    model = chk.lean('XvcRepo', 'XvcRepo.Props.C07', exe=None, extra_modules=['XvcRepo.Model', 'XvcRepo.Effects'])
+    try:
+        c07_extract.run(chk)
+    except (RuntimeError, OSError, ValueError, IndexError) as ex:
+        chk.proof['broken'].append({'stage': 'translator', 'errors': [f'lib/c07_extract.py: {ex}'], 'package': 'XvcRepo', 'theorems': ['C07_moveToCache_address_written_by_rename_only']})
+    model = chk.lean('XvcRepo', 'XvcRepo.Props.C07', exe=None, extra_modules=['XvcRepo.Model', 'XvcRepo.Effects', 'XvcRepo.Gen.MoveToCache'], build_targets=['XvcRepo.Props.C07'])
     xvc = chk.build_xvc()
-    chk.trusted_base += ['crash harness lib/c07.py: strace -f -e inject=<mutating calls>:signal=KILL:when=k (ptrace), cp -a copies of a prepared repository with history',
+    chk.trusted_base += ['translator lib/c07_extract.py (anchored extraction of the calls of `move_to_cache` that create or fill a file, with their destination argument: Gen/MoveToCache.lean)',
+                         'strace error injection (copy_file_range / sendfile -> ENOSYS) stands for a kernel or file system without copy offload',
+                         'crash harness lib/c07.py: strace -f -e inject=<mutating calls>:signal=KILL:when=k (ptrace), cp -a copies of a prepared repository with history',
                          'modelled, not verified: atomicity of single system calls (rename, link, symlink, unlink, mkdir, chmod), ordering visibility, durability (power loss / fsync are outside "killed"), partial write() of a single call, git\'s own commit step (runs with --skip-git; the Git side is C15)']
     chk.assumptions += ['the kill arrives between system calls of the worker thread (serial mode: --no-parallel)',
                         'the local storage used by `bring` is not modified by the crash (read side only)']
@@ -311,8 +400,15 @@ def run(chk):
         # reference run: trace + uninterrupted twin
         ref = clone(base, f'{cname}-ref')
         arg2 = prepare(ref, cname) or argv
+        # what the first target is in the prepared workspace: absent | copy | readonly-file | hardlink | symlink
+        source = rc.entry_kind(Obs(ref), targets[0])[0] if targets else 'none'
+        chk.count(f'source-entry:{source}')
+        scen = {'scenario': cname, 'first_target_is': source,
+                'environment': ('copy_file_range and sendfile fail with ENOSYS (strace -e inject=...:error=ENOSYS): std::fs::copy writes 8 KiB at a time' if no_offload(cname) else 'default')
+                               + ('; TMPDIR on another file system' if 'xdev' in cname else ''),
+                'prepared_repository': 'lib/c07.py setup_repo (sizes: %s)' % json.dumps(chk.extra.get('link_source_sizes', {}))}
         tf = os.path.join(chk.scratch, f'{cname}.trace')
-        ref.run(['strace', '-f', '-qq', '-o', tf, '-e', f'trace={SYSCALLS}', xvc, '--skip-git'] + arg2, timeout=120)
+        ref.run(['strace', '-f', '-qq', '-o', tf, '-e', f'trace={SYSCALLS}'] + (NO_OFFLOAD if no_offload(cname) else []) + [xvc, '--skip-git'] + arg2, timeout=120)
         ref.x('--skip-git', 'file', 'recheck')
         twin = canon(Obs(ref), table)
         # per-thread sequences of matching calls; the worker thread is the one with the most repository mutations
@@ -324,7 +420,16 @@ def run(chk):
         for line in open(tf, errors='replace'):
             m = re.match(r'(\d+)\s+(\w+)\(', line)
             if m and m.group(2) in INJECT.split(','):
+                if no_offload(cname) and m.group(2) in ('copy_file_range', 'sendfile'):
+                    continue            # these calls "do not exist" in this environment: they fail, std copies with read + write
                 raw[(m.group(1), m.group(2))] = raw.get((m.group(1), m.group(2)), 0) + 1
+        # the region this command is in the list for must be reached: a data copy whose destination is below the cache
+        into_cache = [x for x in worker if x[0] in DATA_CALLS and x[1] in ('cache-object', 'cache-tmp')]
+        chk.count(f'reference-data-copy-calls-into-cache:{cname}', len(into_cache))
+        if cname in COPIES_INTO_CACHE and not into_cache and arg2 != ['file', 'list']:
+            chk.disagreement('kill-point coverage', {'command': cname}, 'no copy_file_range / sendfile / write to a file below .xvc/<algo>/ in the reference trace',
+                             'move_to_cache copies the bytes of a link (or of a file on another file system) into the cache',
+                             'the kill-point search does not reach the copy into the cache')
         per_call = {}
         for (pid, sc), cnt in raw.items():
             per_call[sc] = max(per_call.get(sc, 0), cnt)
@@ -351,18 +456,24 @@ def run(chk):
                         diff = {k2: (got[k2], twin[k2]) for k2 in got if got[k2] != twin[k2]}
                         short = json.dumps(diff, default=lambda b: b.decode('latin1') if isinstance(b, bytes) else str(b))[:500]
                         chk.oracle_failure(f'{where}: re-running the command and `xvc file recheck` does not reach the uninterrupted state (rerun rc={rerun[0]} {rerun[1]}): {short}',
-                                           {'command': ' '.join(argv or arg2), 'kill_before_call': f'{k[0]}#{k[1]}', 'at': at}, None,
-                                           signature=dict(phase, kind='rerun-diverges', rerun_rc=('ok' if rerun[0] == 0 else 'error'), cmd=cname.split('-')[0] if cname.startswith(('track', 'recheck', 'move', 'untrack')) else cname))
+                                           dict(scen, command=' '.join(argv or arg2), kill_before_call=f'{k[0]}#{k[1]}', at=at), None,
+                                           signature=dict(phase, kind='rerun-diverges', rerun_rc=('ok' if rerun[0] == 0 else 'error'), cmd=sig_cmd(cname), source=source))
                 else:
                     msg, sig = f
-                    chk.oracle_failure(msg, {'command': ' '.join(argv or arg2), 'kill_before_call': f'{k[0]}#{k[1]}'}, None, signature=sig)
+                    chk.oracle_failure(msg, dict(scen, command=' '.join(argv or arg2), kill_before_call=f'{k[0]}#{k[1]}'), None, signature=sig)
         if len(chk.samples) < 6:
             chk.samples.append({'command': 'xvc --skip-git ' + ' '.join(arg2), 'worker_thread_mutating_calls': [f'{a}:{b}' for a, b in worker][:60]})
     base.cleanup()
-    chk.extra['rule'] = (f'{len(names)} state-changing commands on a prepared repository (3 tracked files with history, a symlinked duplicate pair, an uncommitted edit, a local storage); '
+    chk.extra['rule'] = (f'{len(names)} state-changing commands on a prepared repository (3 tracked files with history, a symlinked duplicate pair, an uncommitted edit, a local storage, '
+                         'a multi-buffer text file materialised with the symlink method, an untracked symbolic link to a multi-buffer data file outside of the repository; sizes drawn per run); '
+                         'sources of the carried-in path: regular file (renamed into the cache), symbolic link to a cached object carried to a NEW address (carry-in --text-or-binary binary), symbolic link to '
+                         'a file outside of the repository (track), file on another file system (bring, TMPDIR on tmpfs) - the last three are COPIED into the cache, each once with the kernel\'s copy offload '
+                         '(copy_file_range: one data call) and once without (`-rw` commands: copy_file_range and sendfile fail with ENOSYS, std copies with 8 KiB writes, kill points fall INSIDE the copy); '
+                         'the reference run of these commands must contain a data-copy call to a file below .xvc/<algo>/ (else the tie is broken); '
                          'each command is killed (one process per kill point) at the j-th invocation of system call s, for every mutating call name s other than the opens and every j up to the '
                          'largest count a thread of the reference run reached (strace keeps one injection counter per call name and thread), i.e. just before every mutating call of the '
-                         'thread that gets there first; then the seven oracles are evaluated (loads, old versions intact, workspace bytes survive, no partial object, re-run + recheck '
+                         'thread that gets there first; then the seven oracles are evaluated (loads, old versions intact, workspace bytes survive - read THROUGH links, also those that leave the repository -, '
+                         'no partial object: every file at an address-shaped path below the cache re-hashes (lib/hashref.py) to its address, after the kill AND after the re-run, re-run + recheck '
                          'converges to the uninterrupted twin, the re-run destroys nothing either, and neither do the follow-up commands `recheck --recheck-method symlink|hardlink|copy` '
                          'and `recheck --force` on the targets of the killed command, run both on the killed state and after the re-run); '
                          'a case is one (command, kill point) pair; all are distinct and non-trivial')
